@@ -312,20 +312,23 @@ func (lam *Lambda) Compile(s *Scope, extraVars ...string) {
 	expand:
 		switch tf := f.(type) {
 		case Symbol:
-			if s.has(string(tf)) || lam.Doc.getArg(string(tf)) != nil {
+			// The case of a variable name does not matter, bindings are
+			// kept under the lower case name.
+			name := strings.ToLower(string(tf))
+			if s.has(name) || lam.Doc.getArg(name) != nil {
 				break
 			}
 			for _, vn := range extraVars {
-				if vn == string(tf) {
+				if strings.EqualFold(vn, name) {
 					break expand
 				}
 			}
-			vv := CurrentPackage.GetVarVal(string(tf))
+			vv := CurrentPackage.GetVarVal(name)
 			if vv == nil {
 				CurrentPackage.mu.Lock()
-				if vv = CurrentPackage.vars[string(tf)]; vv == nil {
-					vv = newUnboundVar(string(tf))
-					CurrentPackage.vars[string(tf)] = vv
+				if vv = CurrentPackage.vars[name]; vv == nil {
+					vv = newUnboundVar(name)
+					CurrentPackage.vars[name] = vv
 				}
 				CurrentPackage.mu.Unlock()
 			}
